@@ -729,8 +729,10 @@ func (st *State) bigEndian(x *ssa.Call, s *SliceV, n int) (Val, bool) {
 		}
 		elems = append(elems, st.load(a))
 	}
-	// linear value when every byte has one: Σ byte_k · 256^(n-1-k) (cannot wrap: bytes are < 256, n <= 7 fits int64)
-	if n < 8 {
+	// linear value when every byte has one: Σ byte_k · 256^(n-1-k) (cannot wrap: bytes are < 256, n <= 7 fits int64). With bit
+	// tracking the result stays one symbol defined by its bits, exactly as the shift-and-or spelling evaluates: the translation to
+	// the writer's side works on whole symbols, and a sum of byte symbols has none.
+	if n < 8 && !ip.TrackBits {
 		f := lin.Const(0)
 		okf := true
 		for k, e := range elems {
